@@ -4743,6 +4743,16 @@ let is_listlike = function
 | RReg (_, _, _, _) -> true
 | _ -> false
 
+(** val keyed : bytes list -> bytes list -> bytes list **)
+
+let rec keyed ks ts =
+  match ks with
+  | [] -> []
+  | k :: ks' ->
+    (match ts with
+     | [] -> []
+     | x :: ts' -> (app (quote k) (app p_colon x)) :: (keyed ks' ts'))
+
 (** val type_tostring : rty -> bytes **)
 
 let rec type_tostring t =
@@ -4804,16 +4814,6 @@ let rec type_tostring t =
                      XH))))))) :: [])))))
    | RRec (p, s, ks, l) ->
      let types = map type_tostring l in
-     let keyed = fun ks0 ->
-       let rec go ks1 ts =
-         match ks1 with
-         | [] -> []
-         | k :: ks' ->
-           (match ts with
-            | [] -> []
-            | x :: ts' -> (app (quote k) (app p_colon x)) :: (go ks' ts'))
-       in go ks0 types
-     in
      with_ts p s
        (match record_name p with
         | Some name0 ->
@@ -4822,7 +4822,7 @@ let rec type_tostring t =
               (app
                 (sep_concat p_comma
                   (match ks with
-                   | Some ks0 -> keyed ks0
+                   | Some ks0 -> keyed ks0 types
                    | None -> types)) ((Zpos (XI (XO (XI (XI (XI (XO
                 XH))))))) :: [])))
         | None ->
@@ -4830,8 +4830,8 @@ let rec type_tostring t =
           then (match ks with
                 | Some ks0 ->
                   app ((Zpos (XI (XI (XO (XI (XI (XI XH))))))) :: [])
-                    (app (sep_concat p_comma (keyed ks0)) ((Zpos (XI (XO (XI
-                      (XI (XI (XI XH))))))) :: []))
+                    (app (sep_concat p_comma (keyed ks0 types)) ((Zpos (XI
+                      (XO (XI (XI (XI (XI XH))))))) :: []))
                 | None ->
                   app ((Zpos (XO (XO (XO (XI (XO XH)))))) :: [])
                     (app (sep_concat p_comma types) ((Zpos (XI (XO (XO (XI
@@ -4948,155 +4948,70 @@ let rec unquote_body fuel s =
     (match s with
      | [] -> Err EValue
      | c :: r ->
-       (match c with
-        | Zpos p ->
-          (match p with
-           | XO p0 ->
-             (match p0 with
-              | XI p1 ->
-                (match p1 with
-                 | XO p2 ->
-                   (match p2 with
-                    | XO p3 ->
-                      (match p3 with
-                       | XO p4 ->
-                         (match p4 with
-                          | XH -> Ok ([], r)
-                          | _ ->
-                            if Z.ltb c (Zpos (XO (XO (XO (XO (XO XH))))))
-                            then Err EValue
-                            else bind (unquote_body fuel' r) (fun xr -> Ok
-                                   ((c :: (fst xr)), (snd xr))))
-                       | _ ->
-                         if Z.ltb c (Zpos (XO (XO (XO (XO (XO XH))))))
-                         then Err EValue
-                         else bind (unquote_body fuel' r) (fun xr -> Ok
-                                ((c :: (fst xr)), (snd xr))))
-                    | _ ->
-                      if Z.ltb c (Zpos (XO (XO (XO (XO (XO XH))))))
-                      then Err EValue
-                      else bind (unquote_body fuel' r) (fun xr -> Ok
-                             ((c :: (fst xr)), (snd xr))))
-                 | _ ->
-                   if Z.ltb c (Zpos (XO (XO (XO (XO (XO XH))))))
-                   then Err EValue
-                   else bind (unquote_body fuel' r) (fun xr -> Ok
-                          ((c :: (fst xr)), (snd xr))))
-              | XO p1 ->
-                (match p1 with
-                 | XI p2 ->
-                   (match p2 with
-                    | XI p3 ->
-                      (match p3 with
-                       | XI p4 ->
-                         (match p4 with
-                          | XO p5 ->
-                            (match p5 with
-                             | XH ->
-                               (match r with
-                                | [] ->
-                                  if Z.ltb c (Zpos (XO (XO (XO (XO (XO
-                                       XH))))))
-                                  then Err EValue
-                                  else bind (unquote_body fuel' r) (fun xr ->
-                                         Ok ((c :: (fst xr)), (snd xr)))
-                                | e :: r0 ->
-                                  let cont = fun c0 r1 ->
-                                    bind (unquote_body fuel' r1) (fun xr ->
-                                      Ok ((c0 :: (fst xr)), (snd xr)))
-                                  in
-                                  if Z.eqb e (Zpos (XO (XI (XO (XO (XO
-                                       XH))))))
-                                  then cont (Zpos (XO (XI (XO (XO (XO
-                                         XH)))))) r0
-                                  else if Z.eqb e (Zpos (XO (XO (XI (XI (XI
-                                            (XO XH)))))))
-                                       then cont (Zpos (XO (XO (XI (XI (XI
-                                              (XO XH))))))) r0
-                                       else if Z.eqb e (Zpos (XO (XI (XO (XO
-                                                 (XO (XI XH)))))))
-                                            then cont (Zpos (XO (XO (XO
-                                                   XH)))) r0
-                                            else if Z.eqb e (Zpos (XO (XI (XI
-                                                      (XO (XO (XI XH)))))))
-                                                 then cont (Zpos (XO (XO (XI
-                                                        XH)))) r0
-                                                 else if Z.eqb e (Zpos (XO
-                                                           (XI (XI (XI (XO
-                                                           (XI XH)))))))
-                                                      then cont (Zpos (XO (XI
-                                                             (XO XH)))) r0
-                                                      else if Z.eqb e (Zpos
-                                                                (XO (XI (XO
-                                                                (XO (XI (XI
-                                                                XH)))))))
-                                                           then cont (Zpos
-                                                                  (XI (XO (XI
-                                                                  XH)))) r0
-                                                           else if Z.eqb e
-                                                                    (Zpos (XO
-                                                                    (XO (XI
-                                                                    (XO (XI
-                                                                    (XI
-                                                                    XH)))))))
-                                                                then 
-                                                                  cont (Zpos
-                                                                    (XI (XO
-                                                                    (XO
-                                                                    XH)))) r0
-                                                                else 
-                                                                  if 
-                                                                    Z.eqb e
-                                                                    (Zpos (XI
-                                                                    (XO (XI
-                                                                    (XO (XI
-                                                                    (XI
-                                                                    XH)))))))
-                                                                  then 
-                                                                    (match r0 with
-                                                                    | [] ->
+       let cont = fun x r0 ->
+         bind (unquote_body fuel' r0) (fun xr -> Ok ((x :: (fst xr)),
+           (snd xr)))
+       in
+       if Z.eqb c (Zpos (XO (XI (XO (XO (XO XH))))))
+       then Ok ([], r)
+       else if Z.eqb c (Zpos (XO (XO (XI (XI (XI (XO XH)))))))
+            then (match r with
+                  | [] -> Err EValue
+                  | e :: r1 ->
+                    if Z.eqb e (Zpos (XO (XI (XO (XO (XO XH))))))
+                    then cont (Zpos (XO (XI (XO (XO (XO XH)))))) r1
+                    else if Z.eqb e (Zpos (XO (XO (XI (XI (XI (XO XH)))))))
+                         then cont (Zpos (XO (XO (XI (XI (XI (XO XH))))))) r1
+                         else if Z.eqb e (Zpos (XO (XI (XO (XO (XO (XI
+                                   XH)))))))
+                              then cont (Zpos (XO (XO (XO XH)))) r1
+                              else if Z.eqb e (Zpos (XO (XI (XI (XO (XO (XI
+                                        XH)))))))
+                                   then cont (Zpos (XO (XO (XI XH)))) r1
+                                   else if Z.eqb e (Zpos (XO (XI (XI (XI (XO
+                                             (XI XH)))))))
+                                        then cont (Zpos (XO (XI (XO XH)))) r1
+                                        else if Z.eqb e (Zpos (XO (XI (XO (XO
+                                                  (XI (XI XH)))))))
+                                             then cont (Zpos (XI (XO (XI
+                                                    XH)))) r1
+                                             else if Z.eqb e (Zpos (XO (XO
+                                                       (XI (XO (XI (XI
+                                                       XH)))))))
+                                                  then cont (Zpos (XI (XO (XO
+                                                         XH)))) r1
+                                                  else if Z.eqb e (Zpos (XI
+                                                            (XO (XI (XO (XI
+                                                            (XI XH)))))))
+                                                       then (match r1 with
+                                                             | [] ->
+                                                               Err EValue
+                                                             | z1 :: l0 ->
+                                                               (match l0 with
+                                                                | [] ->
+                                                                  Err EValue
+                                                                | z2 :: l1 ->
+                                                                  (match l1 with
+                                                                   | [] ->
                                                                     Err EValue
-                                                                    | z0 :: l0 ->
-                                                                    (match z0 with
-                                                                    | Zpos p6 ->
-                                                                    (match p6 with
-                                                                    | XO p7 ->
-                                                                    (match p7 with
-                                                                    | XO p8 ->
-                                                                    (match p8 with
-                                                                    | XO p9 ->
-                                                                    (match p9 with
-                                                                    | XO p10 ->
-                                                                    (match p10 with
-                                                                    | XI p11 ->
-                                                                    (match p11 with
-                                                                    | XH ->
-                                                                    (match l0 with
-                                                                    | [] ->
-                                                                    Err EValue
-                                                                    | z1 :: l1 ->
-                                                                    (match z1 with
-                                                                    | Zpos p12 ->
-                                                                    (match p12 with
-                                                                    | XO p13 ->
-                                                                    (match p13 with
-                                                                    | XO p14 ->
-                                                                    (match p14 with
-                                                                    | XO p15 ->
-                                                                    (match p15 with
-                                                                    | XO p16 ->
-                                                                    (match p16 with
-                                                                    | XI p17 ->
-                                                                    (match p17 with
-                                                                    | XH ->
-                                                                    (match l1 with
-                                                                    | [] ->
-                                                                    Err EValue
-                                                                    | h :: l2 ->
+                                                                   | h :: l2 ->
                                                                     (match l2 with
                                                                     | [] ->
                                                                     Err EValue
-                                                                    | l :: r' ->
+                                                                    | l :: r2 ->
+                                                                    if 
+                                                                    (&&)
+                                                                    (Z.eqb z1
+                                                                    (Zpos (XO
+                                                                    (XO (XO
+                                                                    (XO (XI
+                                                                    XH)))))))
+                                                                    (Z.eqb z2
+                                                                    (Zpos (XO
+                                                                    (XO (XO
+                                                                    (XO (XI
+                                                                    XH)))))))
+                                                                    then 
                                                                     (match 
                                                                     unhex h with
                                                                     | Some a ->
@@ -5124,110 +5039,28 @@ let rec unquote_body fuel s =
                                                                     (XO (XO
                                                                     (XO
                                                                     XH))))))
-                                                                    b) r'
+                                                                    b) r2
                                                                     else 
                                                                     Err EValue
                                                                     | None ->
                                                                     Err EValue)
                                                                     | None ->
-                                                                    Err EValue)))
-                                                                    | _ ->
                                                                     Err EValue)
-                                                                    | _ ->
-                                                                    Err EValue)
-                                                                    | _ ->
-                                                                    Err EValue)
-                                                                    | _ ->
-                                                                    Err EValue)
-                                                                    | _ ->
-                                                                    Err EValue)
-                                                                    | _ ->
-                                                                    Err EValue)
-                                                                    | _ ->
-                                                                    Err EValue))
-                                                                    | _ ->
-                                                                    Err EValue)
-                                                                    | _ ->
-                                                                    Err EValue)
-                                                                    | _ ->
-                                                                    Err EValue)
-                                                                    | _ ->
-                                                                    Err EValue)
-                                                                    | _ ->
-                                                                    Err EValue)
-                                                                    | _ ->
-                                                                    Err EValue)
-                                                                    | _ ->
-                                                                    Err EValue))
-                                                                  else 
-                                                                    Err EValue)
-                             | _ ->
-                               if Z.ltb c (Zpos (XO (XO (XO (XO (XO XH))))))
-                               then Err EValue
-                               else bind (unquote_body fuel' r) (fun xr -> Ok
-                                      ((c :: (fst xr)), (snd xr))))
-                          | _ ->
-                            if Z.ltb c (Zpos (XO (XO (XO (XO (XO XH))))))
-                            then Err EValue
-                            else bind (unquote_body fuel' r) (fun xr -> Ok
-                                   ((c :: (fst xr)), (snd xr))))
-                       | _ ->
-                         if Z.ltb c (Zpos (XO (XO (XO (XO (XO XH))))))
-                         then Err EValue
-                         else bind (unquote_body fuel' r) (fun xr -> Ok
-                                ((c :: (fst xr)), (snd xr))))
-                    | _ ->
-                      if Z.ltb c (Zpos (XO (XO (XO (XO (XO XH))))))
-                      then Err EValue
-                      else bind (unquote_body fuel' r) (fun xr -> Ok
-                             ((c :: (fst xr)), (snd xr))))
-                 | _ ->
-                   if Z.ltb c (Zpos (XO (XO (XO (XO (XO XH))))))
-                   then Err EValue
-                   else bind (unquote_body fuel' r) (fun xr -> Ok
-                          ((c :: (fst xr)), (snd xr))))
-              | XH ->
-                if Z.ltb c (Zpos (XO (XO (XO (XO (XO XH))))))
-                then Err EValue
-                else bind (unquote_body fuel' r) (fun xr -> Ok
-                       ((c :: (fst xr)), (snd xr))))
-           | _ ->
-             if Z.ltb c (Zpos (XO (XO (XO (XO (XO XH))))))
-             then Err EValue
-             else bind (unquote_body fuel' r) (fun xr -> Ok ((c :: (fst xr)),
-                    (snd xr))))
-        | _ ->
-          if Z.ltb c (Zpos (XO (XO (XO (XO (XO XH))))))
-          then Err EValue
-          else bind (unquote_body fuel' r) (fun xr -> Ok ((c :: (fst xr)),
-                 (snd xr)))))
+                                                                    else 
+                                                                    Err EValue))))
+                                                       else Err EValue)
+            else if Z.ltb c (Zpos (XO (XO (XO (XO (XO XH))))))
+                 then Err EValue
+                 else cont c r)
 
 (** val unquote : bytes -> (bytes * bytes) res **)
 
 let unquote = function
 | [] -> Err EValue
-| z0 :: r ->
-  (match z0 with
-   | Zpos p ->
-     (match p with
-      | XO p0 ->
-        (match p0 with
-         | XI p1 ->
-           (match p1 with
-            | XO p2 ->
-              (match p2 with
-               | XO p3 ->
-                 (match p3 with
-                  | XO p4 ->
-                    (match p4 with
-                     | XH -> unquote_body (S (length r)) r
-                     | _ -> Err EValue)
-                  | _ -> Err EValue)
-               | _ -> Err EValue)
-            | _ -> Err EValue)
-         | _ -> Err EValue)
-      | _ -> Err EValue)
-   | _ -> Err EValue)
+| c :: r ->
+  if Z.eqb c (Zpos (XO (XI (XO (XO (XO XH))))))
+  then unquote_body (S (length r)) r
+  else Err EValue
 
 (** val w_option : z list **)
 
@@ -5584,68 +5417,168 @@ let reserved_words =
     (bytes -> (rty * bytes) res) -> nat -> z -> bytes -> (rty list * bytes)
     res **)
 
-let rec parse_list parse_ty0 fuel close s =
+let rec parse_list sub0 fuel close s =
   match fuel with
   | O -> Err EFuel
   | S fuel' ->
-    (match s with
-     | [] -> Err EValue
-     | c :: r ->
-       if Z.eqb c close
-       then Ok ([], r)
-       else bind (parse_ty0 s) (fun tr ->
-              match snd tr with
-              | [] -> Err EValue
-              | c' :: r' ->
-                if Z.eqb c' close
-                then Ok (((fst tr) :: []), r')
-                else (match strip_prefix p_comma (snd tr) with
-                      | Some rest ->
-                        (match rest with
-                         | [] -> Err EValue
-                         | c'' :: _ ->
-                           if Z.eqb c'' close
-                           then Err EValue
-                           else bind (parse_list parse_ty0 fuel' close rest)
-                                  (fun lr -> Ok (((fst tr) :: (fst lr)),
-                                  (snd lr))))
-                      | None -> Err EValue)))
+    bind (sub0 s) (fun tr ->
+      match snd tr with
+      | [] -> Err EValue
+      | c' :: r' ->
+        if Z.eqb c' close
+        then Ok (((fst tr) :: []), r')
+        else (match strip_prefix p_comma (snd tr) with
+              | Some rest ->
+                bind (parse_list sub0 fuel' close rest) (fun lr -> Ok
+                  (((fst tr) :: (fst lr)), (snd lr)))
+              | None -> Err EValue))
+
+(** val parse_items :
+    (bytes -> (rty * bytes) res) -> nat -> z -> bytes -> (rty list * bytes)
+    res **)
+
+let parse_items sub0 fuel close s = match s with
+| [] -> Err EValue
+| c :: r -> if Z.eqb c close then Ok ([], r) else parse_list sub0 fuel close s
 
 (** val parse_fields :
     (bytes -> (rty * bytes) res) -> nat -> z -> bytes -> ((bytes * rty)
     list * bytes) res **)
 
-let rec parse_fields parse_ty0 fuel close s =
+let rec parse_fields sub0 fuel close s =
   match fuel with
   | O -> Err EFuel
   | S fuel' ->
-    (match s with
-     | [] -> Err EValue
-     | c :: r ->
-       if Z.eqb c close
-       then Ok ([], r)
-       else bind (unquote s) (fun kr ->
-              match strip_prefix p_colon (snd kr) with
-              | Some s1 ->
-                bind (parse_ty0 s1) (fun tr ->
-                  match snd tr with
+    bind (unquote s) (fun kr ->
+      match strip_prefix p_colon (snd kr) with
+      | Some s1 ->
+        bind (sub0 s1) (fun tr ->
+          match snd tr with
+          | [] -> Err EValue
+          | c' :: r' ->
+            if Z.eqb c' close
+            then Ok ((((fst kr), (fst tr)) :: []), r')
+            else (match strip_prefix p_comma (snd tr) with
+                  | Some rest ->
+                    bind (parse_fields sub0 fuel' close rest) (fun lr -> Ok
+                      ((((fst kr), (fst tr)) :: (fst lr)), (snd lr)))
+                  | None -> Err EValue))
+      | None -> Err EValue)
+
+(** val parse_fielditems :
+    (bytes -> (rty * bytes) res) -> nat -> z -> bytes -> ((bytes * rty)
+    list * bytes) res **)
+
+let parse_fielditems sub0 fuel close s = match s with
+| [] -> Err EValue
+| c :: r ->
+  if Z.eqb c close then Ok ([], r) else parse_fields sub0 fuel close s
+
+(** val opt_branch :
+    (bytes -> (rty * bytes) res) -> bytes -> (rty * bytes) res **)
+
+let opt_branch sub0 r =
+  bind (sub0 r) (fun tr ->
+    if is_listlike (fst tr)
+    then Err EValue
+    else Ok ((ROpt ([], [], (fst tr))), (snd tr)))
+
+(** val brace_branch :
+    (bytes -> (rty * bytes) res) -> nat -> bytes -> (rty * bytes) res **)
+
+let brace_branch sub0 fuel r =
+  bind (parse_fielditems sub0 fuel (Zpos (XI (XO (XI (XI (XI (XI XH))))))) r)
+    (fun fr -> Ok ((RRec ([], [], (Some (map fst (fst fr))),
+    (map snd (fst fr)))), (snd fr)))
+
+(** val paren_branch :
+    (bytes -> (rty * bytes) res) -> nat -> bytes -> (rty * bytes) res **)
+
+let paren_branch sub0 fuel r =
+  bind (parse_items sub0 fuel (Zpos (XI (XO (XO (XI (XO XH)))))) r)
+    (fun lr -> Ok ((RRec ([], [], None, (fst lr))), (snd lr)))
+
+(** val num_branch :
+    (bytes -> (rty * bytes) res) -> bytes -> (rty * bytes) res **)
+
+let num_branch sub0 s =
+  let (ds, rest) = span is_digit s in
+  (match strip_prefix p_star rest with
+   | Some rest' ->
+     bind (sub0 rest') (fun tr -> Ok ((RReg ([], [], (z_of_digits ds),
+       (fst tr))), (snd tr)))
+   | None -> Err EValue)
+
+(** val plain_word :
+    (bytes -> (rty * bytes) res) -> bytes -> bytes -> (rty * bytes) res **)
+
+let plain_word sub0 w rest =
+  if bytes_eqb w w_var
+  then (match strip_prefix p_star rest with
+        | Some rest' ->
+          bind (sub0 rest') (fun tr -> Ok ((RList ([], [], (fst tr))),
+            (snd tr)))
+        | None -> Err EValue)
+  else if bytes_eqb w p_string
+       then Ok (t_string, rest)
+       else if bytes_eqb w p_bytes
+            then Ok (t_bytes, rest)
+            else if bytes_eqb w p_char
+                 then Ok (t_char, rest)
+                 else if bytes_eqb w p_byte
+                      then Ok (t_byte, rest)
+                      else if bytes_eqb w n_unknown
+                           then Ok ((RUnk ([], [])), rest)
+                           else (match prim_of_name w with
+                                 | Some dt -> Ok ((RNum ([], [], dt)), rest)
+                                 | None -> Err EValue)
+
+(** val bracket_branch :
+    (bytes -> (rty * bytes) res) -> nat -> bytes -> bytes -> (rty * bytes) res **)
+
+let bracket_branch sub0 fuel w rest1 =
+  if bytes_eqb w w_option
+  then bind (sub0 rest1) (fun tr ->
+         match snd tr with
+         | [] -> Err EValue
+         | c :: rest2 ->
+           if Z.eqb c (Zpos (XI (XO (XI (XI (XI (XO XH)))))))
+           then if is_listlike (fst tr)
+                then Ok ((ROpt ([], [], (fst tr))), rest2)
+                else Err EValue
+           else Err EValue)
+  else if bytes_eqb w w_union
+       then bind
+              (parse_items sub0 fuel (Zpos (XI (XO (XI (XI (XI (XO XH)))))))
+                rest1) (fun lr -> Ok ((RUnion ([], [], (fst lr))), (snd lr)))
+       else if existsb (bytes_eqb w) reserved_words
+            then Err EValue
+            else let p = (k_record, (JStr w)) :: [] in
+                 (match rest1 with
                   | [] -> Err EValue
-                  | c' :: r' ->
-                    if Z.eqb c' close
-                    then Ok ((((fst kr), (fst tr)) :: []), r')
-                    else (match strip_prefix p_comma (snd tr) with
-                          | Some rest ->
-                            (match rest with
-                             | [] -> Err EValue
-                             | c'' :: _ ->
-                               if Z.eqb c'' close
-                               then Err EValue
-                               else bind
-                                      (parse_fields parse_ty0 fuel' close
-                                        rest) (fun lr -> Ok ((((fst kr),
-                                      (fst tr)) :: (fst lr)), (snd lr))))
-                          | None -> Err EValue))
-              | None -> Err EValue))
+                  | c :: rest2 ->
+                    if Z.eqb c (Zpos (XO (XI (XO (XO (XO XH))))))
+                    then bind
+                           (parse_fields sub0 fuel (Zpos (XI (XO (XI (XI (XI
+                             (XO XH))))))) rest1) (fun fr -> Ok ((RRec (p,
+                           [], (Some (map fst (fst fr))),
+                           (map snd (fst fr)))), (snd fr)))
+                    else if Z.eqb c (Zpos (XI (XO (XI (XI (XI (XO XH)))))))
+                         then Ok ((RRec (p, [], (Some []), [])), rest2)
+                         else bind
+                                (parse_list sub0 fuel (Zpos (XI (XO (XI (XI
+                                  (XI (XO XH))))))) rest1) (fun lr -> Ok
+                                ((RRec (p, [], None, (fst lr))), (snd lr))))
+
+(** val word_branch :
+    (bytes -> (rty * bytes) res) -> nat -> bytes -> bytes -> (rty * bytes) res **)
+
+let word_branch sub0 fuel w rest = match rest with
+| [] -> plain_word sub0 w rest
+| c1 :: rest1 ->
+  if Z.eqb c1 (Zpos (XI (XI (XO (XI (XI (XO XH)))))))
+  then bracket_branch sub0 fuel w rest1
+  else plain_word sub0 w rest
 
 (** val parse_ty : nat -> bytes -> (rty * bytes) res **)
 
@@ -5654,944 +5587,20 @@ let rec parse_ty fuel s =
   | O -> Err EFuel
   | S fuel' ->
     let sub0 = parse_ty fuel' in
-    let n0 = S (length s) in
     (match s with
      | [] -> Err EValue
      | c :: r ->
        if Z.eqb c (Zpos (XI (XI (XI (XI (XI XH))))))
-       then bind (sub0 r) (fun tr ->
-              if is_listlike (fst tr)
-              then Err EValue
-              else Ok ((ROpt ([], [], (fst tr))), (snd tr)))
+       then opt_branch sub0 r
        else if Z.eqb c (Zpos (XI (XI (XO (XI (XI (XI XH)))))))
-            then bind
-                   (parse_fields sub0 n0 (Zpos (XI (XO (XI (XI (XI (XI
-                     XH))))))) r) (fun fr -> Ok ((RRec ([], [], (Some
-                   (map fst (fst fr))), (map snd (fst fr)))), (snd fr)))
+            then brace_branch sub0 fuel' r
             else if Z.eqb c (Zpos (XO (XO (XO (XI (XO XH))))))
-                 then bind
-                        (parse_list sub0 n0 (Zpos (XI (XO (XO (XI (XO
-                          XH)))))) r) (fun lr -> Ok ((RRec ([], [], None,
-                        (fst lr))), (snd lr)))
+                 then paren_branch sub0 fuel' r
                  else if is_digit c
-                      then let (ds, rest) = span is_digit s in
-                           (match ds with
-                            | [] ->
-                              (match strip_prefix p_star rest with
-                               | Some rest' ->
-                                 bind (sub0 rest') (fun tr -> Ok ((RReg ([],
-                                   [], (z_of_digits ds), (fst tr))),
-                                   (snd tr)))
-                               | None -> Err EValue)
-                            | z0 :: l ->
-                              (match z0 with
-                               | Zpos p ->
-                                 (match p with
-                                  | XO p0 ->
-                                    (match p0 with
-                                     | XO p1 ->
-                                       (match p1 with
-                                        | XO p2 ->
-                                          (match p2 with
-                                           | XO p3 ->
-                                             (match p3 with
-                                              | XI p4 ->
-                                                (match p4 with
-                                                 | XH ->
-                                                   (match l with
-                                                    | [] ->
-                                                      (match strip_prefix
-                                                               p_star rest with
-                                                       | Some rest' ->
-                                                         bind (sub0 rest')
-                                                           (fun tr -> Ok
-                                                           ((RReg ([], [],
-                                                           (z_of_digits ds),
-                                                           (fst tr))),
-                                                           (snd tr)))
-                                                       | None -> Err EValue)
-                                                    | _ :: _ -> Err EValue)
-                                                 | _ ->
-                                                   (match strip_prefix p_star
-                                                            rest with
-                                                    | Some rest' ->
-                                                      bind (sub0 rest')
-                                                        (fun tr -> Ok ((RReg
-                                                        ([], [],
-                                                        (z_of_digits ds),
-                                                        (fst tr))), (snd tr)))
-                                                    | None -> Err EValue))
-                                              | _ ->
-                                                (match strip_prefix p_star
-                                                         rest with
-                                                 | Some rest' ->
-                                                   bind (sub0 rest')
-                                                     (fun tr -> Ok ((RReg
-                                                     ([], [],
-                                                     (z_of_digits ds),
-                                                     (fst tr))), (snd tr)))
-                                                 | None -> Err EValue))
-                                           | _ ->
-                                             (match strip_prefix p_star rest with
-                                              | Some rest' ->
-                                                bind (sub0 rest') (fun tr ->
-                                                  Ok ((RReg ([], [],
-                                                  (z_of_digits ds),
-                                                  (fst tr))), (snd tr)))
-                                              | None -> Err EValue))
-                                        | _ ->
-                                          (match strip_prefix p_star rest with
-                                           | Some rest' ->
-                                             bind (sub0 rest') (fun tr -> Ok
-                                               ((RReg ([], [],
-                                               (z_of_digits ds), (fst tr))),
-                                               (snd tr)))
-                                           | None -> Err EValue))
-                                     | _ ->
-                                       (match strip_prefix p_star rest with
-                                        | Some rest' ->
-                                          bind (sub0 rest') (fun tr -> Ok
-                                            ((RReg ([], [], (z_of_digits ds),
-                                            (fst tr))), (snd tr)))
-                                        | None -> Err EValue))
-                                  | _ ->
-                                    (match strip_prefix p_star rest with
-                                     | Some rest' ->
-                                       bind (sub0 rest') (fun tr -> Ok ((RReg
-                                         ([], [], (z_of_digits ds),
-                                         (fst tr))), (snd tr)))
-                                     | None -> Err EValue))
-                               | _ ->
-                                 (match strip_prefix p_star rest with
-                                  | Some rest' ->
-                                    bind (sub0 rest') (fun tr -> Ok ((RReg
-                                      ([], [], (z_of_digits ds), (fst tr))),
-                                      (snd tr)))
-                                  | None -> Err EValue)))
+                      then num_branch sub0 s
                       else if is_alpha_ c
                            then let (w, rest) = span is_alnum_ s in
-                                (match rest with
-                                 | [] ->
-                                   if bytes_eqb w w_var
-                                   then (match strip_prefix p_star rest with
-                                         | Some rest' ->
-                                           bind (sub0 rest') (fun tr -> Ok
-                                             ((RList ([], [], (fst tr))),
-                                             (snd tr)))
-                                         | None -> Err EValue)
-                                   else if bytes_eqb w p_string
-                                        then Ok (t_string, rest)
-                                        else if bytes_eqb w p_bytes
-                                             then Ok (t_bytes, rest)
-                                             else if bytes_eqb w p_char
-                                                  then Ok (t_char, rest)
-                                                  else if bytes_eqb w p_byte
-                                                       then Ok (t_byte, rest)
-                                                       else if bytes_eqb w
-                                                                 n_unknown
-                                                            then Ok ((RUnk
-                                                                   ([], [])),
-                                                                   rest)
-                                                            else (match 
-                                                                  prim_of_name
-                                                                    w with
-                                                                  | Some dt ->
-                                                                    Ok ((RNum
-                                                                    ([], [],
-                                                                    dt)),
-                                                                    rest)
-                                                                  | None ->
-                                                                    Err EValue)
-                                 | z0 :: rest1 ->
-                                   (match z0 with
-                                    | Zpos p ->
-                                      (match p with
-                                       | XI p0 ->
-                                         (match p0 with
-                                          | XI p1 ->
-                                            (match p1 with
-                                             | XO p2 ->
-                                               (match p2 with
-                                                | XI p3 ->
-                                                  (match p3 with
-                                                   | XI p4 ->
-                                                     (match p4 with
-                                                      | XO p5 ->
-                                                        (match p5 with
-                                                         | XH ->
-                                                           if bytes_eqb w
-                                                                w_option
-                                                           then bind
-                                                                  (sub0 rest1)
-                                                                  (fun tr ->
-                                                                  match 
-                                                                  snd tr with
-                                                                  | [] ->
-                                                                    Err EValue
-                                                                  | z1 :: rest2 ->
-                                                                    (match z1 with
-                                                                    | Zpos p6 ->
-                                                                    (match p6 with
-                                                                    | XI p7 ->
-                                                                    (match p7 with
-                                                                    | XO p8 ->
-                                                                    (match p8 with
-                                                                    | XI p9 ->
-                                                                    (match p9 with
-                                                                    | XI p10 ->
-                                                                    (match p10 with
-                                                                    | XI p11 ->
-                                                                    (match p11 with
-                                                                    | XO p12 ->
-                                                                    (match p12 with
-                                                                    | XH ->
-                                                                    if 
-                                                                    is_listlike
-                                                                    (fst tr)
-                                                                    then 
-                                                                    Ok ((ROpt
-                                                                    ([], [],
-                                                                    (fst tr))),
-                                                                    rest2)
-                                                                    else 
-                                                                    Err EValue
-                                                                    | _ ->
-                                                                    Err EValue)
-                                                                    | _ ->
-                                                                    Err EValue)
-                                                                    | _ ->
-                                                                    Err EValue)
-                                                                    | _ ->
-                                                                    Err EValue)
-                                                                    | _ ->
-                                                                    Err EValue)
-                                                                    | _ ->
-                                                                    Err EValue)
-                                                                    | _ ->
-                                                                    Err EValue)
-                                                                    | _ ->
-                                                                    Err EValue))
-                                                           else if bytes_eqb
-                                                                    w w_union
-                                                                then 
-                                                                  bind
-                                                                    (parse_list
-                                                                    sub0 n0
-                                                                    (Zpos (XI
-                                                                    (XO (XI
-                                                                    (XI (XI
-                                                                    (XO
-                                                                    XH)))))))
-                                                                    rest1)
-                                                                    (fun lr ->
-                                                                    Ok
-                                                                    ((RUnion
-                                                                    ([], [],
-                                                                    (fst lr))),
-                                                                    (snd lr)))
-                                                                else 
-                                                                  if 
-                                                                    existsb
-                                                                    (bytes_eqb
-                                                                    w)
-                                                                    reserved_words
-                                                                  then 
-                                                                    Err EValue
-                                                                  else 
-                                                                    let p6 =
-                                                                    (k_record,
-                                                                    (JStr
-                                                                    w)) :: []
-                                                                    in
-                                                                    (
-                                                                    match rest1 with
-                                                                    | [] ->
-                                                                    bind
-                                                                    (parse_list
-                                                                    sub0 n0
-                                                                    (Zpos (XI
-                                                                    (XO (XI
-                                                                    (XI (XI
-                                                                    (XO
-                                                                    XH)))))))
-                                                                    rest1)
-                                                                    (fun lr ->
-                                                                    Ok ((RRec
-                                                                    (p6, [],
-                                                                    None,
-                                                                    (fst lr))),
-                                                                    (snd lr)))
-                                                                    | z1 :: rest2 ->
-                                                                    (match z1 with
-                                                                    | Zpos p7 ->
-                                                                    (match p7 with
-                                                                    | XI p8 ->
-                                                                    (match p8 with
-                                                                    | XO p9 ->
-                                                                    (match p9 with
-                                                                    | XI p10 ->
-                                                                    (match p10 with
-                                                                    | XI p11 ->
-                                                                    (match p11 with
-                                                                    | XI p12 ->
-                                                                    (match p12 with
-                                                                    | XO p13 ->
-                                                                    (match p13 with
-                                                                    | XH ->
-                                                                    Ok ((RRec
-                                                                    (p6, [],
-                                                                    (Some
-                                                                    []),
-                                                                    [])),
-                                                                    rest2)
-                                                                    | _ ->
-                                                                    bind
-                                                                    (parse_list
-                                                                    sub0 n0
-                                                                    (Zpos (XI
-                                                                    (XO (XI
-                                                                    (XI (XI
-                                                                    (XO
-                                                                    XH)))))))
-                                                                    rest1)
-                                                                    (fun lr ->
-                                                                    Ok ((RRec
-                                                                    (p6, [],
-                                                                    None,
-                                                                    (fst lr))),
-                                                                    (snd lr))))
-                                                                    | _ ->
-                                                                    bind
-                                                                    (parse_list
-                                                                    sub0 n0
-                                                                    (Zpos (XI
-                                                                    (XO (XI
-                                                                    (XI (XI
-                                                                    (XO
-                                                                    XH)))))))
-                                                                    rest1)
-                                                                    (fun lr ->
-                                                                    Ok ((RRec
-                                                                    (p6, [],
-                                                                    None,
-                                                                    (fst lr))),
-                                                                    (snd lr))))
-                                                                    | _ ->
-                                                                    bind
-                                                                    (parse_list
-                                                                    sub0 n0
-                                                                    (Zpos (XI
-                                                                    (XO (XI
-                                                                    (XI (XI
-                                                                    (XO
-                                                                    XH)))))))
-                                                                    rest1)
-                                                                    (fun lr ->
-                                                                    Ok ((RRec
-                                                                    (p6, [],
-                                                                    None,
-                                                                    (fst lr))),
-                                                                    (snd lr))))
-                                                                    | _ ->
-                                                                    bind
-                                                                    (parse_list
-                                                                    sub0 n0
-                                                                    (Zpos (XI
-                                                                    (XO (XI
-                                                                    (XI (XI
-                                                                    (XO
-                                                                    XH)))))))
-                                                                    rest1)
-                                                                    (fun lr ->
-                                                                    Ok ((RRec
-                                                                    (p6, [],
-                                                                    None,
-                                                                    (fst lr))),
-                                                                    (snd lr))))
-                                                                    | _ ->
-                                                                    bind
-                                                                    (parse_list
-                                                                    sub0 n0
-                                                                    (Zpos (XI
-                                                                    (XO (XI
-                                                                    (XI (XI
-                                                                    (XO
-                                                                    XH)))))))
-                                                                    rest1)
-                                                                    (fun lr ->
-                                                                    Ok ((RRec
-                                                                    (p6, [],
-                                                                    None,
-                                                                    (fst lr))),
-                                                                    (snd lr))))
-                                                                    | _ ->
-                                                                    bind
-                                                                    (parse_list
-                                                                    sub0 n0
-                                                                    (Zpos (XI
-                                                                    (XO (XI
-                                                                    (XI (XI
-                                                                    (XO
-                                                                    XH)))))))
-                                                                    rest1)
-                                                                    (fun lr ->
-                                                                    Ok ((RRec
-                                                                    (p6, [],
-                                                                    None,
-                                                                    (fst lr))),
-                                                                    (snd lr))))
-                                                                    | XO p8 ->
-                                                                    (match p8 with
-                                                                    | XI p9 ->
-                                                                    (match p9 with
-                                                                    | XO p10 ->
-                                                                    (match p10 with
-                                                                    | XO p11 ->
-                                                                    (match p11 with
-                                                                    | XO p12 ->
-                                                                    (match p12 with
-                                                                    | XH ->
-                                                                    bind
-                                                                    (parse_fields
-                                                                    sub0 n0
-                                                                    (Zpos (XI
-                                                                    (XO (XI
-                                                                    (XI (XI
-                                                                    (XO
-                                                                    XH)))))))
-                                                                    rest1)
-                                                                    (fun fr ->
-                                                                    Ok ((RRec
-                                                                    (p6, [],
-                                                                    (Some
-                                                                    (map fst
-                                                                    (fst fr))),
-                                                                    (map snd
-                                                                    (fst fr)))),
-                                                                    (snd fr)))
-                                                                    | _ ->
-                                                                    bind
-                                                                    (parse_list
-                                                                    sub0 n0
-                                                                    (Zpos (XI
-                                                                    (XO (XI
-                                                                    (XI (XI
-                                                                    (XO
-                                                                    XH)))))))
-                                                                    rest1)
-                                                                    (fun lr ->
-                                                                    Ok ((RRec
-                                                                    (p6, [],
-                                                                    None,
-                                                                    (fst lr))),
-                                                                    (snd lr))))
-                                                                    | _ ->
-                                                                    bind
-                                                                    (parse_list
-                                                                    sub0 n0
-                                                                    (Zpos (XI
-                                                                    (XO (XI
-                                                                    (XI (XI
-                                                                    (XO
-                                                                    XH)))))))
-                                                                    rest1)
-                                                                    (fun lr ->
-                                                                    Ok ((RRec
-                                                                    (p6, [],
-                                                                    None,
-                                                                    (fst lr))),
-                                                                    (snd lr))))
-                                                                    | _ ->
-                                                                    bind
-                                                                    (parse_list
-                                                                    sub0 n0
-                                                                    (Zpos (XI
-                                                                    (XO (XI
-                                                                    (XI (XI
-                                                                    (XO
-                                                                    XH)))))))
-                                                                    rest1)
-                                                                    (fun lr ->
-                                                                    Ok ((RRec
-                                                                    (p6, [],
-                                                                    None,
-                                                                    (fst lr))),
-                                                                    (snd lr))))
-                                                                    | _ ->
-                                                                    bind
-                                                                    (parse_list
-                                                                    sub0 n0
-                                                                    (Zpos (XI
-                                                                    (XO (XI
-                                                                    (XI (XI
-                                                                    (XO
-                                                                    XH)))))))
-                                                                    rest1)
-                                                                    (fun lr ->
-                                                                    Ok ((RRec
-                                                                    (p6, [],
-                                                                    None,
-                                                                    (fst lr))),
-                                                                    (snd lr))))
-                                                                    | _ ->
-                                                                    bind
-                                                                    (parse_list
-                                                                    sub0 n0
-                                                                    (Zpos (XI
-                                                                    (XO (XI
-                                                                    (XI (XI
-                                                                    (XO
-                                                                    XH)))))))
-                                                                    rest1)
-                                                                    (fun lr ->
-                                                                    Ok ((RRec
-                                                                    (p6, [],
-                                                                    None,
-                                                                    (fst lr))),
-                                                                    (snd lr))))
-                                                                    | XH ->
-                                                                    bind
-                                                                    (parse_list
-                                                                    sub0 n0
-                                                                    (Zpos (XI
-                                                                    (XO (XI
-                                                                    (XI (XI
-                                                                    (XO
-                                                                    XH)))))))
-                                                                    rest1)
-                                                                    (fun lr ->
-                                                                    Ok ((RRec
-                                                                    (p6, [],
-                                                                    None,
-                                                                    (fst lr))),
-                                                                    (snd lr))))
-                                                                    | _ ->
-                                                                    bind
-                                                                    (parse_list
-                                                                    sub0 n0
-                                                                    (Zpos (XI
-                                                                    (XO (XI
-                                                                    (XI (XI
-                                                                    (XO
-                                                                    XH)))))))
-                                                                    rest1)
-                                                                    (fun lr ->
-                                                                    Ok ((RRec
-                                                                    (p6, [],
-                                                                    None,
-                                                                    (fst lr))),
-                                                                    (snd lr)))))
-                                                         | _ ->
-                                                           if bytes_eqb w
-                                                                w_var
-                                                           then (match 
-                                                                 strip_prefix
-                                                                   p_star rest with
-                                                                 | Some rest' ->
-                                                                   bind
-                                                                    (sub0
-                                                                    rest')
-                                                                    (fun tr ->
-                                                                    Ok
-                                                                    ((RList
-                                                                    ([], [],
-                                                                    (fst tr))),
-                                                                    (snd tr)))
-                                                                 | None ->
-                                                                   Err EValue)
-                                                           else if bytes_eqb
-                                                                    w p_string
-                                                                then 
-                                                                  Ok
-                                                                    (t_string,
-                                                                    rest)
-                                                                else 
-                                                                  if 
-                                                                    bytes_eqb
-                                                                    w p_bytes
-                                                                  then 
-                                                                    Ok
-                                                                    (t_bytes,
-                                                                    rest)
-                                                                  else 
-                                                                    if 
-                                                                    bytes_eqb
-                                                                    w p_char
-                                                                    then 
-                                                                    Ok
-                                                                    (t_char,
-                                                                    rest)
-                                                                    else 
-                                                                    if 
-                                                                    bytes_eqb
-                                                                    w p_byte
-                                                                    then 
-                                                                    Ok
-                                                                    (t_byte,
-                                                                    rest)
-                                                                    else 
-                                                                    if 
-                                                                    bytes_eqb
-                                                                    w
-                                                                    n_unknown
-                                                                    then 
-                                                                    Ok ((RUnk
-                                                                    ([],
-                                                                    [])),
-                                                                    rest)
-                                                                    else 
-                                                                    (match 
-                                                                    prim_of_name
-                                                                    w with
-                                                                    | Some dt ->
-                                                                    Ok ((RNum
-                                                                    ([], [],
-                                                                    dt)),
-                                                                    rest)
-                                                                    | None ->
-                                                                    Err EValue))
-                                                      | _ ->
-                                                        if bytes_eqb w w_var
-                                                        then (match strip_prefix
-                                                                    p_star
-                                                                    rest with
-                                                              | Some rest' ->
-                                                                bind
-                                                                  (sub0 rest')
-                                                                  (fun tr ->
-                                                                  Ok ((RList
-                                                                  ([], [],
-                                                                  (fst tr))),
-                                                                  (snd tr)))
-                                                              | None ->
-                                                                Err EValue)
-                                                        else if bytes_eqb w
-                                                                  p_string
-                                                             then Ok
-                                                                    (t_string,
-                                                                    rest)
-                                                             else if 
-                                                                    bytes_eqb
-                                                                    w p_bytes
-                                                                  then 
-                                                                    Ok
-                                                                    (t_bytes,
-                                                                    rest)
-                                                                  else 
-                                                                    if 
-                                                                    bytes_eqb
-                                                                    w p_char
-                                                                    then 
-                                                                    Ok
-                                                                    (t_char,
-                                                                    rest)
-                                                                    else 
-                                                                    if 
-                                                                    bytes_eqb
-                                                                    w p_byte
-                                                                    then 
-                                                                    Ok
-                                                                    (t_byte,
-                                                                    rest)
-                                                                    else 
-                                                                    if 
-                                                                    bytes_eqb
-                                                                    w
-                                                                    n_unknown
-                                                                    then 
-                                                                    Ok ((RUnk
-                                                                    ([],
-                                                                    [])),
-                                                                    rest)
-                                                                    else 
-                                                                    (match 
-                                                                    prim_of_name
-                                                                    w with
-                                                                    | Some dt ->
-                                                                    Ok ((RNum
-                                                                    ([], [],
-                                                                    dt)),
-                                                                    rest)
-                                                                    | None ->
-                                                                    Err EValue))
-                                                   | _ ->
-                                                     if bytes_eqb w w_var
-                                                     then (match strip_prefix
-                                                                   p_star rest with
-                                                           | Some rest' ->
-                                                             bind
-                                                               (sub0 rest')
-                                                               (fun tr -> Ok
-                                                               ((RList ([],
-                                                               [],
-                                                               (fst tr))),
-                                                               (snd tr)))
-                                                           | None ->
-                                                             Err EValue)
-                                                     else if bytes_eqb w
-                                                               p_string
-                                                          then Ok (t_string,
-                                                                 rest)
-                                                          else if bytes_eqb w
-                                                                    p_bytes
-                                                               then Ok
-                                                                    (t_bytes,
-                                                                    rest)
-                                                               else if 
-                                                                    bytes_eqb
-                                                                    w p_char
-                                                                    then 
-                                                                    Ok
-                                                                    (t_char,
-                                                                    rest)
-                                                                    else 
-                                                                    if 
-                                                                    bytes_eqb
-                                                                    w p_byte
-                                                                    then 
-                                                                    Ok
-                                                                    (t_byte,
-                                                                    rest)
-                                                                    else 
-                                                                    if 
-                                                                    bytes_eqb
-                                                                    w
-                                                                    n_unknown
-                                                                    then 
-                                                                    Ok ((RUnk
-                                                                    ([],
-                                                                    [])),
-                                                                    rest)
-                                                                    else 
-                                                                    (match 
-                                                                    prim_of_name
-                                                                    w with
-                                                                    | Some dt ->
-                                                                    Ok ((RNum
-                                                                    ([], [],
-                                                                    dt)),
-                                                                    rest)
-                                                                    | None ->
-                                                                    Err EValue))
-                                                | _ ->
-                                                  if bytes_eqb w w_var
-                                                  then (match strip_prefix
-                                                                p_star rest with
-                                                        | Some rest' ->
-                                                          bind (sub0 rest')
-                                                            (fun tr -> Ok
-                                                            ((RList ([], [],
-                                                            (fst tr))),
-                                                            (snd tr)))
-                                                        | None -> Err EValue)
-                                                  else if bytes_eqb w p_string
-                                                       then Ok (t_string,
-                                                              rest)
-                                                       else if bytes_eqb w
-                                                                 p_bytes
-                                                            then Ok (t_bytes,
-                                                                   rest)
-                                                            else if bytes_eqb
-                                                                    w p_char
-                                                                 then 
-                                                                   Ok
-                                                                    (t_char,
-                                                                    rest)
-                                                                 else 
-                                                                   if 
-                                                                    bytes_eqb
-                                                                    w p_byte
-                                                                   then 
-                                                                    Ok
-                                                                    (t_byte,
-                                                                    rest)
-                                                                   else 
-                                                                    if 
-                                                                    bytes_eqb
-                                                                    w
-                                                                    n_unknown
-                                                                    then 
-                                                                    Ok ((RUnk
-                                                                    ([],
-                                                                    [])),
-                                                                    rest)
-                                                                    else 
-                                                                    (match 
-                                                                    prim_of_name
-                                                                    w with
-                                                                    | Some dt ->
-                                                                    Ok ((RNum
-                                                                    ([], [],
-                                                                    dt)),
-                                                                    rest)
-                                                                    | None ->
-                                                                    Err EValue))
-                                             | _ ->
-                                               if bytes_eqb w w_var
-                                               then (match strip_prefix
-                                                             p_star rest with
-                                                     | Some rest' ->
-                                                       bind (sub0 rest')
-                                                         (fun tr -> Ok
-                                                         ((RList ([], [],
-                                                         (fst tr))),
-                                                         (snd tr)))
-                                                     | None -> Err EValue)
-                                               else if bytes_eqb w p_string
-                                                    then Ok (t_string, rest)
-                                                    else if bytes_eqb w
-                                                              p_bytes
-                                                         then Ok (t_bytes,
-                                                                rest)
-                                                         else if bytes_eqb w
-                                                                   p_char
-                                                              then Ok
-                                                                    (t_char,
-                                                                    rest)
-                                                              else if 
-                                                                    bytes_eqb
-                                                                    w p_byte
-                                                                   then 
-                                                                    Ok
-                                                                    (t_byte,
-                                                                    rest)
-                                                                   else 
-                                                                    if 
-                                                                    bytes_eqb
-                                                                    w
-                                                                    n_unknown
-                                                                    then 
-                                                                    Ok ((RUnk
-                                                                    ([],
-                                                                    [])),
-                                                                    rest)
-                                                                    else 
-                                                                    (match 
-                                                                    prim_of_name
-                                                                    w with
-                                                                    | Some dt ->
-                                                                    Ok ((RNum
-                                                                    ([], [],
-                                                                    dt)),
-                                                                    rest)
-                                                                    | None ->
-                                                                    Err EValue))
-                                          | _ ->
-                                            if bytes_eqb w w_var
-                                            then (match strip_prefix p_star
-                                                          rest with
-                                                  | Some rest' ->
-                                                    bind (sub0 rest')
-                                                      (fun tr -> Ok ((RList
-                                                      ([], [], (fst tr))),
-                                                      (snd tr)))
-                                                  | None -> Err EValue)
-                                            else if bytes_eqb w p_string
-                                                 then Ok (t_string, rest)
-                                                 else if bytes_eqb w p_bytes
-                                                      then Ok (t_bytes, rest)
-                                                      else if bytes_eqb w
-                                                                p_char
-                                                           then Ok (t_char,
-                                                                  rest)
-                                                           else if bytes_eqb
-                                                                    w p_byte
-                                                                then 
-                                                                  Ok (t_byte,
-                                                                    rest)
-                                                                else 
-                                                                  if 
-                                                                    bytes_eqb
-                                                                    w
-                                                                    n_unknown
-                                                                  then 
-                                                                    Ok ((RUnk
-                                                                    ([],
-                                                                    [])),
-                                                                    rest)
-                                                                  else 
-                                                                    (match 
-                                                                    prim_of_name
-                                                                    w with
-                                                                    | Some dt ->
-                                                                    Ok ((RNum
-                                                                    ([], [],
-                                                                    dt)),
-                                                                    rest)
-                                                                    | None ->
-                                                                    Err EValue))
-                                       | _ ->
-                                         if bytes_eqb w w_var
-                                         then (match strip_prefix p_star rest with
-                                               | Some rest' ->
-                                                 bind (sub0 rest') (fun tr ->
-                                                   Ok ((RList ([], [],
-                                                   (fst tr))), (snd tr)))
-                                               | None -> Err EValue)
-                                         else if bytes_eqb w p_string
-                                              then Ok (t_string, rest)
-                                              else if bytes_eqb w p_bytes
-                                                   then Ok (t_bytes, rest)
-                                                   else if bytes_eqb w p_char
-                                                        then Ok (t_char, rest)
-                                                        else if bytes_eqb w
-                                                                  p_byte
-                                                             then Ok (t_byte,
-                                                                    rest)
-                                                             else if 
-                                                                    bytes_eqb
-                                                                    w
-                                                                    n_unknown
-                                                                  then 
-                                                                    Ok ((RUnk
-                                                                    ([],
-                                                                    [])),
-                                                                    rest)
-                                                                  else 
-                                                                    (match 
-                                                                    prim_of_name
-                                                                    w with
-                                                                    | Some dt ->
-                                                                    Ok ((RNum
-                                                                    ([], [],
-                                                                    dt)),
-                                                                    rest)
-                                                                    | None ->
-                                                                    Err EValue))
-                                    | _ ->
-                                      if bytes_eqb w w_var
-                                      then (match strip_prefix p_star rest with
-                                            | Some rest' ->
-                                              bind (sub0 rest') (fun tr -> Ok
-                                                ((RList ([], [], (fst tr))),
-                                                (snd tr)))
-                                            | None -> Err EValue)
-                                      else if bytes_eqb w p_string
-                                           then Ok (t_string, rest)
-                                           else if bytes_eqb w p_bytes
-                                                then Ok (t_bytes, rest)
-                                                else if bytes_eqb w p_char
-                                                     then Ok (t_char, rest)
-                                                     else if bytes_eqb w
-                                                               p_byte
-                                                          then Ok (t_byte,
-                                                                 rest)
-                                                          else if bytes_eqb w
-                                                                    n_unknown
-                                                               then Ok ((RUnk
-                                                                    ([],
-                                                                    [])),
-                                                                    rest)
-                                                               else (match 
-                                                                    prim_of_name
-                                                                    w with
-                                                                    | Some dt ->
-                                                                    Ok ((RNum
-                                                                    ([], [],
-                                                                    dt)),
-                                                                    rest)
-                                                                    | None ->
-                                                                    Err EValue)))
+                                word_branch sub0 fuel' w rest
                            else Err EValue)
 
 (** val type_parse : bytes -> rty res **)
